@@ -203,11 +203,12 @@ Proof.
   destruct (new2_ok (new1 s h t) h t K1) as ([K2 L2 F2] & c & Fc & Post2); rewrite ?Et1; try assumption; try reflexivity.
   assert (Et2 : tors (new2 (new1 s h t) h t) = tors s) by (destruct F2; congruence).
   assert (O3 : okstep (new2 (new1 s h t) h t) (new3 (new2 (new1 s h t) h t) h w) [w]).
-  { apply new3_ok with (c := c); try assumption.
-    - destruct F1, F2. congruence.
-    - rewrite Et2. intros Hd. destruct F1, F2. rewrite f_seen1, f_seen0. auto. }
-  change [w] with ([w] ++ [] ++ []).
-  eapply ok_trans; [eapply ok_trans; constructor; eassumption | exact O3].
+  { rewrite Et1 in Post2. destruct F1 as [_ Ec1 Es1 _ _ _], F2 as [_ Ec2 Es2 _ _ _].
+    apply new3_ok with (c := c); try assumption.
+    - rewrite Ec2, Ec1. exact Hc.
+    - rewrite Et2, Es2, Es1. auto. }
+  pose proof (mkOk _ _ _ K1 L1 F1) as O1. pose proof (mkOk _ _ _ K2 L2 F2) as O2.
+  exact (ok_trans _ _ _ _ _ (ok_trans _ _ _ _ _ O1 O2) O3).
 Qed.
 
 (* ---------- events.go:355 dispatcherCompleteEvent.apply ---------- *)
@@ -244,7 +245,8 @@ Proof.
            pose proof K1 as K1'. destruct K1' as [Kh1 Kc1 _ _ _ _ _ _]. destruct (Kc1 c0 Hc0) as (A & _).
            rewrite <- Hd0 in A.
            destruct (find_ctrl_split _ _ _ F (k_hashes _ _ _ _ _ _ _ K)) as (m1 & m2 & S1 & S2 & S3 & S4).
-           rewrite (S4 _ Eh) in Hc0, Kh1.
+           pose proof (S4 (mkC (c_hash c) (c_disp c) [] (c_lastw c) (c_lastr c)) Eh) as S5.
+           rewrite S5 in Hc0, Kh1.
            assert (c0 = mkC (c_hash c) (c_disp c) [] (c_lastw c) (c_lastr c)).
            { eapply ctrl_unique; [exact Kh1 | exact Hc0 | apply in_elt | cbn [c_hash]; congruence]. }
            subst c0. cbn [c_errors] in He. congruence.
@@ -369,17 +371,22 @@ Proof.
 Qed.
 
 Lemma Core_pop_state s l1 e l2 : Core s -> pending s = l1 ++ e :: l2 -> (forall d, e <> PComplete d) ->
-  okstep s (set_pending s (l1 ++ l2)) [] /\
+  Core (set_pending s (l1 ++ l2)) /\ frame s (set_pending s (l1 ++ l2)) /\
   Permutation (live s) (pending_callers [e] ++ live (set_pending s (l1 ++ l2))).
 Proof.
   intros K E Hn. unfold Core in K. rewrite E in K.
   assert (K' : CoreC (tors s) (ctrls s) (l1 ++ l2) (results s) (calls s) (seen s) (now s)).
   { eapply core_pop; [exact K|]. intros; apply Hn. }
-  assert (L : Permutation (live s) (pending_callers [e] ++ liveC (results s) (ctrls s) (l1 ++ l2))).
-  { unfold live. rewrite E. apply live_pop. }
-  split; [|exact L].
-  constructor; [exact K' | | constructor; try reflexivity; apply incl_refl].
-  cbn [app]. apply Permutation_refl.
+  split; [exact K' | split].
+  - constructor; try reflexivity; apply incl_refl.
+  - unfold live. rewrite E. apply live_pop.
+Qed.
+
+Lemma pop_ok s l1 e l2 : Core s -> pending s = l1 ++ e :: l2 -> (forall d, e <> PComplete d) ->
+  pending_callers [e] = [] -> okstep s (set_pending s (l1 ++ l2)) [].
+Proof.
+  intros K E Hn Hc. destruct (Core_pop_state s l1 e l2 K E Hn) as (K' & F & L).
+  rewrite Hc in L. constructor; [exact K' | now apply Permutation_sym | exact F].
 Qed.
 
 Theorem Inv_step c s o : Inv s -> Inv (step c s o).
@@ -413,7 +420,7 @@ Proof.
         -- unfold live. cbn [ctrls pending results calls map fst set_pending].
            rewrite live_push. cbn [pending_callers]. fold (live s).
            apply perm_trans with (w :: live s); [perm_solve | now apply perm_skip].
-        -- cbn [stopped set_pending]. rewrite St. discriminate.
+        -- simp_st; rewrite ?St; intros Hx; discriminate Hx.
   - (* Feed *)
     destruct (find_ctrl h (ctrls s)) as [x|] eqn:F; [|exact I].
     destruct (tor_complete s (c_disp x) || stopped s || memb h (cache s) || negb (memb h (partial s))) eqn:B; [exact I|].
@@ -427,13 +434,13 @@ Proof.
       pose proof (live_replace _ _ _ _ _ _ _ K1 h x (mkC (c_hash x) (c_disp x) (c_errors x) (now s) (c_lastr x)) F Eh) as L.
       cbn [c_errors] in L. apply Permutation_app_inv_l in L. rewrite L, live_push. cbn [pending_callers].
       rewrite app_nil_r. apply Permutation_refl.
-    + cbn [stopped]. rewrite St. discriminate.
+    + simp_st; rewrite ?St; intros Hx; discriminate Hx.
   - (* Remove *)
     destruct (stopped s) eqn:St; [exact I|]. split; [|split].
     + unfold Core. cbn [tors ctrls pending results calls seen now set_pending]. now apply core_push.
     + unfold live. cbn [ctrls pending results calls set_pending]. rewrite live_push. cbn [pending_callers].
       rewrite app_nil_r. exact P.
-    + cbn [stopped set_pending]. rewrite St. discriminate.
+    + simp_st; rewrite ?St; intros Hx; discriminate Hx.
   - (* Evict *)
     exact I.
   - (* Advance *)
@@ -444,7 +451,7 @@ Proof.
     + unfold Core. cbn [tors ctrls pending results calls seen now set_pending]. now apply core_push.
     + unfold live. cbn [ctrls pending results calls set_pending]. rewrite live_push. cbn [pending_callers].
       rewrite app_nil_r. exact P.
-    + cbn [stopped set_pending]. rewrite St. discriminate.
+    + simp_st; rewrite ?St; intros Hx; discriminate Hx.
   - (* Stop *)
     destruct (stopped s || existsb (pev_eqb PShutdown) (pending s)) eqn:B; [exact I|].
     assert (St : stopped s = false) by (destruct (stopped s); [discriminate | reflexivity]).
@@ -452,20 +459,20 @@ Proof.
     + unfold Core. cbn [tors ctrls pending results calls seen now set_pending]. now apply core_push.
     + unfold live. cbn [ctrls pending results calls set_pending]. rewrite live_push. cbn [pending_callers].
       rewrite app_nil_r. exact P.
-    + cbn [stopped set_pending]. rewrite St. discriminate.
+    + simp_st; rewrite ?St; intros Hx; discriminate Hx.
   - (* ApNew *)
     destruct (take_new w (pending s)) as [[t p']|] eqn:T; [|exact I].
     destruct (take_new_split _ _ _ _ T) as (l1 & l2 & E & ->).
     pose proof (pending_nonempty_running _ _ _ _ I E) as St.
-    destruct (Core_pop_state s l1 _ l2 K E) as (O1 & L1); [discriminate|].
+    destruct (Core_pop_state s l1 _ l2 K E) as (K1 & F1 & L1); [discriminate|].
     assert (Hnew : In (PNew w t) (pending s)) by (rewrite E; apply in_elt).
     destruct K as [_ _ _ _ _ Kn _ _]. destruct (Kn w t Hnew) as (V & C & Sn).
     assert (O2 : okstep (set_pending s (l1 ++ l2)) (apply_new true (set_pending s (l1 ++ l2)) w t) [w]).
-    { apply apply_new_ok; [now destruct O1 | exact V | exact C | exact Sn]. }
+    { apply apply_new_ok; [exact K1 | exact V | exact C | exact Sn]. }
     destruct O2 as [K2 L2 F2]. split; [exact K2 | split].
-    + destruct F2. rewrite f_calls0. cbn [calls set_pending]. rewrite <- P, L2, L1. cbn [pending_callers app].
+    + destruct F2 as [_ Ecl _ _ _ _]. rewrite Ecl. cbn [calls set_pending]. rewrite <- P, L2, L1. cbn [pending_callers app].
       apply Permutation_refl.
-    + destruct F2. rewrite f_stopped0. cbn [stopped set_pending]. rewrite St. discriminate.
+    + destruct F2. rewrite f_stopped0. simp_st; rewrite ?St; intros Hx; discriminate Hx.
   - (* ApComplete *)
     destruct (remove_first_pev (pev_eqb (PComplete d)) (pending s)) as [p'|] eqn:R; [|exact I].
     destruct (remove_first_split _ _ _ R) as (l1 & l2 & E & ->).
@@ -475,7 +482,7 @@ Proof.
     destruct (remove_first_pev (pev_eqb (PRemove h)) (pending s)) as [p'|] eqn:R; [|exact I].
     destruct (remove_first_split _ _ _ R) as (l1 & l2 & E & ->).
     pose proof (pending_nonempty_running _ _ _ _ I E) as St.
-    destruct (Core_pop_state s l1 _ l2 K E) as (O1 & L1); [discriminate|].
+    pose proof (pop_ok s l1 _ l2 K E) as O1. specialize (O1 ltac:(discriminate) eq_refl).
     eapply Inv_ok; [exact I | exact St |].
     change (@nil N) with (@nil N ++ []). eapply ok_trans; [exact O1|].
     apply apply_remove_ok. now destruct O1.
@@ -483,14 +490,15 @@ Proof.
     destruct (remove_first_pev (pev_eqb PTick) (pending s)) as [p'|] eqn:R; [|exact I].
     destruct (remove_first_split _ _ _ R) as (l1 & l2 & E & ->).
     pose proof (pending_nonempty_running _ _ _ _ I E) as St.
-    destruct (Core_pop_state s l1 _ l2 K E) as (O1 & L1); [discriminate|].
+    pose proof (pop_ok s l1 _ l2 K E) as O1. specialize (O1 ltac:(discriminate) eq_refl).
     eapply Inv_ok; [exact I | exact St |].
     change (@nil N) with (@nil N ++ []). eapply ok_trans; [exact O1|].
     unfold apply_tick. apply tick_over_ok. now destruct O1.
   - (* ApShutdown *)
     destruct (remove_first_pev (pev_eqb PShutdown) (pending s)) as [p'|] eqn:R; [|exact I].
     destruct (remove_first_split _ _ _ R) as (l1 & l2 & E & ->).
-    destruct (Core_pop_state s l1 _ l2 K E) as ([K1 L1' F1] & L1); [discriminate|].
+    pose proof (pop_ok s l1 _ l2 K E) as O1. specialize (O1 ltac:(discriminate) eq_refl).
+    destruct O1 as [K1 L1' F1].
     destruct (apply_shutdown_ok _ K1) as (K2 & L2 & C2 & St2 & P2 & W2).
     split; [exact K2 | split].
     + rewrite C2. cbn [calls set_pending]. rewrite L2. cbn [app] in L1'. rewrite L1'. exact P.
